@@ -173,15 +173,25 @@ def valBE (cx : Ctx) (field : Option Str) : Nat → Val → Option BE
     | some es => some (.or es)
     | none => none
 
-/-- top-level values of an item: strings go through the placeholder items; placeholders inside
-expanded values are not reached by the transformations and stay unresolved -/
+/-- values of an item: strings — also the alternatives of an expanded value — go through the
+placeholder items of the pipeline -/
 def valBE' (cx : Ctx) (field : Option Str) (v : Val) : Except SpecErr BE :=
   match v with
   | .str c s => strBE cx field c s
   | .expansion vs =>
-    match vs.find? (fun x => match x with | .str _ s => !Placeholder.noPh s | _ => false) with
-    | some (.str _ s) => .error (.unresolved ((Placeholder.phNames s).headD []))
-    | _ => match valBE cx field 8 v with | some e => .ok e | none => .error (.unsupported "value")
+    let alt (x : Val) : Except SpecErr BE :=
+      match x with
+      | .str c s => strBE cx field c s
+      | _ => match valBE cx field 8 x with | some e => .ok e | none => .error (.unsupported "value")
+    let rec go : List Val → Except SpecErr (List BE)
+      | [] => .ok []
+      | x :: xs => match alt x, go xs with
+        | .ok e, .ok es => .ok (e :: es)
+        | .error e, _ => .error e
+        | _, .error e => .error e
+    match go vs with
+    | .ok es => .ok (.or es)
+    | .error e => .error e
   | _ => match valBE cx field 8 v with | some e => .ok e | none => .error (.unsupported "value")
 
 def pvToVal (raw : Bool) : PV → Val
